@@ -32,7 +32,7 @@ def run(ctx):
     c09.balance_rule(ctx, "C07.R6")
 
 
-def run_panics(ctx):
-    run_panic_inventory(ctx, "C07.R4", entries(ctx.prog),
+def run_panics(ctx, rid="C07.R4"):
+    run_panic_inventory(ctx, rid, entries(ctx.prog),
                         "no unreviewed non-arithmetic panic site (bounds check, unwrap, index, panic!, div by zero, RefCell, Duration ops) is reachable in the search thread",
                         ctx_sensitive=True, kinds=("contract",), fn_floor=200, site_floor=60)
